@@ -235,5 +235,21 @@ func suiteQuorum(c *Ctx) {
 				}
 			}
 		}
+		// the consumer may reuse its committee buffer between terms: the SAME backing array, other weights.
+		// The tests must judge the committee as it is now.
+		if it%2 == 0 && fits && n >= 2 && sum.BitLen() < 60 {
+			ms[0].Weight, ms[n-1].Weight = ms[n-1].Weight+primitives.MemberWeight(1+it%7)*primitives.MemberWeight(n), ms[0].Weight
+			var S []primitives.MemberId
+			for i := 0; i < (n+1)/2; i++ {
+				S = append(S, ms[i].Id)
+			}
+			for _, sub := range [][]primitives.MemberId{S, {ms[0].Id}, {ms[n-1].Id}} {
+				ok1, w1, q1 := quorum.IsQuorum(sub, ms)
+				h1, hw1, hb1 := quorum.HasHonest(sub, ms)
+				c.Emit(fmt.Sprintf("isq %s %s", fmtIds(sub), fmtMembers(ms)), fmt.Sprintf("%s %d %d", b2s(ok1), w1, q1))
+				c.Emit(fmt.Sprintf("hon %s %s", fmtIds(sub), fmtMembers(ms)), fmt.Sprintf("%s %d %d", b2s(h1), hw1, hb1))
+			}
+			c.Class("committee-buffer-reused")
+		}
 	}
 }
